@@ -338,11 +338,28 @@ Definition run_unfixed := run_gen false.
 Inductive scripted :=
 | ScServer (buf : list N) | ScInput (buf : list N) | ScHelperOut (buf : list N) | ScHelperExit (code : Z).
 
+(* A remote zmodem program as lrzsz behaves: it REPEATS its start header every [r_period] ms
+   (at most [r_max] times) until it is sent the cancel sequence, or has seen the local side's
+   finish header or over-and-out; after that a shell is there again, which answers every
+   write ending in CR with a prompt.  The first header is an ordinary scripted event at [r_t0]. *)
+Record remote_spec := mkRem { r_t0 : N; r_period : N; r_max : nat; r_hdr : list N; r_prompt : list N }.
+
+Definition remote_stopper (o : output) : bool :=
+  match o with
+  | OCancelServer | OOServer => true
+  | OServer b => finish_find b
+  | _ => false
+  end.
+Definition remote_waiting (os : list output) : bool := negb (existsb remote_stopper os).
+
+Definition ends_in_cr (b : list N) : bool := match rev b with 13 :: _ => true | _ => false end.
+
 Record scenario := mkSc {
   sc_launch : launch_res;         (* what launching will give *)
   sc_autoexit : option Z;         (* the helper exits by itself at once with this code *)
   sc_dlpath : bool;               (* a default download path is set (adds its delay for downloads) *)
   sc_greet : list N;              (* what the helper prints right after it started ([] = nothing), as lrzsz does *)
+  sc_remote : option remote_spec; (* the remote side is such a program (otherwise only the scripted chunks arrive) *)
   sc_readerr : list bool;         (* per session: the reader saw the helper's exit as a read error, not as EOF
                                      (a race in the implementation; taken from the observed run) *)
 }.
@@ -414,7 +431,7 @@ Definition scripted_events (eof : event) (e : scripted) : list event :=
   | ScHelperExit c => [eof; EvHelperExit c]
   end.
 
-Record tstate := mkT { t_f : fstate; t_p : pend; t_out : list output; t_evs : list event }.
+Record tstate := mkT { t_f : fstate; t_p : pend; t_out : list output; t_evs : list event; t_rem : nat }.
 
 Definition sessions (os : list output) : nat :=
   length (filter (fun o => match o with OStart _ => true | _ => false end) os).
@@ -427,24 +444,56 @@ Definition has_start (os : list output) : bool :=
   existsb (fun o => match o with OStart _ => true | _ => false end) os.
 
 (* the goroutine of a session that was just created begins at once *)
-Definition apply_events (fixed : bool) (sc : scenario) (t : N) (evs : list event) (st : tstate) : tstate :=
+Definition apply_events1 (fixed : bool) (sc : scenario) (t : N) (evs : list event) (st : tstate) : tstate * list output :=
   let (f0, o0) := run_gen fixed (t_f st) evs in
   let evs' := if has_start o0 then evs ++ [EvGraceBegin] else evs in
   let (f', o) := run_gen fixed (t_f st) evs' in
-  mkT f' (fold_left (note sc t) o (t_p st)) (t_out st ++ o) (t_evs st ++ evs').
+  (mkT f' (fold_left (note sc t) o (t_p st)) (t_out st ++ o) (t_evs st ++ evs') (t_rem st), o).
 
-(* fire the pending internal events due at or before [limit] *)
+(* the shell behind a remote program that is over answers what ends in CR *)
+Definition shell_answers (sc : scenario) (before o : list output) : list event :=
+  match sc_remote sc with
+  | Some r =>
+    if remote_waiting (before ++ o) then []
+    else flat_map (fun x => match x with OServer b => if ends_in_cr b then [EvServer (r_prompt r)] else [] | _ => [] end) o
+  | None => []
+  end.
+
+Definition apply_events (fixed : bool) (sc : scenario) (t : N) (evs : list event) (st : tstate) : tstate :=
+  let (st1, o) := apply_events1 fixed sc t evs st in
+  match shell_answers sc (t_out st) o with
+  | [] => st1
+  | answers => fst (apply_events1 fixed sc t answers st1)
+  end.
+
+(* when the remote program repeats its header next *)
+Definition next_remote (sc : scenario) (st : tstate) : option (N * remote_spec) :=
+  match sc_remote sc with
+  | Some r => if (t_rem st <? r_max r)%nat then Some (r_t0 r + N.of_nat (S (t_rem st)) * r_period r, r) else None
+  | None => None
+  end.
+
+(* fire the pending internal events and the remote's repetitions due at or before [limit];
+   an internal event due no later than a repetition goes first *)
 Fixpoint drain (fuel : nat) (fixed : bool) (sc : scenario) (limit : N) (st : tstate) : tstate :=
   match fuel with
   | O => st
   | S fuel' =>
-    match next_internal (t_p st) with
-    | Some (t, i) =>
-      if t <=? limit then
-        drain fuel' fixed sc limit
-          (apply_events fixed sc t (internal_events sc (eof_event sc st) i) (mkT (t_f st) (clear i (t_p st)) (t_out st) (t_evs st)))
-      else st
-    | None => st
+    let fire_remote (tr : N) (r : remote_spec) :=
+      let st' := mkT (t_f st) (t_p st) (t_out st) (t_evs st) (S (t_rem st)) in
+      drain fuel' fixed sc limit
+        (if remote_waiting (t_out st) then apply_events fixed sc tr [EvServer (r_hdr r)] st' else st') in
+    let fire_internal (t : N) (i : internal) :=
+      drain fuel' fixed sc limit
+        (apply_events fixed sc t (internal_events sc (eof_event sc st) i)
+           (mkT (t_f st) (clear i (t_p st)) (t_out st) (t_evs st) (t_rem st))) in
+    match next_internal (t_p st), next_remote sc st with
+    | Some (t, i), Some (tr, r) =>
+      if (t <=? tr) then (if t <=? limit then fire_internal t i else st)
+      else (if tr <=? limit then fire_remote tr r else st)
+    | Some (t, i), None => if t <=? limit then fire_internal t i else st
+    | None, Some (tr, r) => if tr <=? limit then fire_remote tr r else st
+    | None, None => st
     end
   end.
 
@@ -459,7 +508,7 @@ Fixpoint run_timed_from (fixed : bool) (sc : scenario) (evs : list (N * scripted
   end.
 
 Definition run_timed (fixed : bool) (sc : scenario) (evs : list (N * scripted)) (horizon : N) : tstate :=
-  run_timed_from fixed sc evs horizon (mkT idle no_pend [] []).
+  run_timed_from fixed sc evs horizon (mkT idle no_pend [] [] O).
 
 (* ---- entry points of the correspondence check: basic types only, unique names ---- *)
 
@@ -511,9 +560,11 @@ Definition decode_scripted (e : N * (list N * Z)) : scripted :=
 Definition launches (os : list output) : N :=
   N.of_nat (length (filter (fun o => match o with OLaunchHelper => true | _ => false end) os)).
 
-Definition zmodem_run_canon (fixed : bool) (launch : N) (autoexit : option Z) (dl : bool) (greet : list N) (readerr : list bool) (horizon : N)
-    (evs : list (N * (N * (list N * Z)))) : (list (N * list N) * list N) * (list bool * (bool * (bool * N))) :=
-  let sc := mkSc (if launch =? 0 then LaunchOk else if launch =? 1 then LaunchFail else ChooserErr) autoexit dl greet readerr in
+Definition zmodem_run_canon (fixed : bool) (launch : N) (autoexit : option Z) (dl : bool) (greet : list N)
+    (remote : option (N * (N * (nat * (list N * list N))))) (readerr : list bool) (horizon : N)
+    (evs : list (N * (N * (list N * Z)))) : (list (N * list N) * list N) * (list bool * (bool * (bool * (N * bool)))) :=
+  let sc := mkSc (if launch =? 0 then LaunchOk else if launch =? 1 then LaunchFail else ChooserErr) autoexit dl greet
+    (match remote with Some (t0, (p, (m, (h, pr)))) => Some (mkRem t0 p m h pr) | None => None end) readerr in
   let st := run_timed fixed sc (map (fun e => (fst e, decode_scripted (snd e))) evs) horizon in
   ((canon_items (t_out st), helper_bytes (t_out st)),
-   (flags_of (zs (t_f st)), (ptr (t_f st), (started (t_out st), launches (t_out st))))).
+   (flags_of (zs (t_f st)), (ptr (t_f st), (started (t_out st), (launches (t_out st), remote_waiting (t_out st)))))).
